@@ -166,6 +166,7 @@ def run(ctx):
 
     exit_codes(ctx, "R16-c")
     raw_subtractions(ctx, "R16-d")
+    char_byte_units(ctx, "R16-f")
 
     # R16-e ---------------------------------------------------------------------------------------
     r.rule("R16-e", "Cargo.toml profiles do not set panic = \"abort\" (catch_unwind would be void)")
@@ -295,3 +296,113 @@ def raw_subtractions(ctx, rid):
            and is_config_getter(operand_origin(c.fn, c.args[0])[1])]
     r.floor(rid, len(sat), 3, "conforming saturating_sub sites on a Config getter")
     r.note("R16-d: %d checked subtractions examined, %d flagged, %d conforming saturating_sub sites" % (total, flagged, len(sat)))
+
+
+# ---------------------------------------------------------------------------------------------
+CHAR_SOURCES = ("first_line_width", "last_line_width", "unicode_str_width", "trimmed_last_line_width", "UnicodeWidthStr",
+                "UnicodeWidthChar", "last_line_used_width", "Indent::width", "Shape::used_width")
+BYTE_SANITIZERS = ("char_indices", "::len", "::find", "::rfind", "byte_offset", "::position", "floor_char_boundary",
+                   "ceil_char_boundary", "is_char_boundary", "::min")
+
+
+_RET_TAINT = {}
+
+
+def _ret_taint(p, fn, depth):
+    """char-count sources the value returned by a workspace function derives from (memoised summary)"""
+    if fn.id in _RET_TAINT:
+        return _RET_TAINT[fn.id]
+    _RET_TAINT[fn.id] = []          # cycle guard
+    if depth > 3 or not any(t in fn.locals[0] for t in ("usize", "u32")):
+        return []
+    out = _taint_sources(p, fn, 0, depth + 1)
+    _RET_TAINT[fn.id] = out
+    return out
+
+
+def _taint_sources(p, fn, local, depth=0):
+    """char-count sources a local derives from, stopping at char→byte conversions"""
+    seen = set()
+    out = []
+    work = [local]
+    while work:
+        l = work.pop()
+        if l in seen:
+            continue
+        seen.add(l)
+        for bb, kind, payload in fn.defs().get(l, []):
+            if kind in ("assign", "partial") and not hasattr(payload, "callee"):
+                rv = payload[2]
+                for op in rvalue_operands(rv):
+                    if op[0] != "k":
+                        work.append(op[1][0])
+                        for e in op[1][1]:
+                            if isinstance(e, (list, tuple)) and e[0] == "f" and e[2] and e[2].endswith("ErrorKind") and e[3] == "LineOverflow":
+                                out.append("ErrorKind::LineOverflow payload (columns)")
+                            if isinstance(e, (list, tuple)) and e[0] == "f" and e[4] == "line_len":
+                                out.append("FormatLines.line_len (columns)")
+                from common import rvalue_places
+                for pl in rvalue_places(rv):
+                    work.append(pl[0])
+            else:
+                c = payload
+                nm = c.name
+                body = p.fns.get(c.resolved or "")
+                sanit = any(x in nm for x in BYTE_SANITIZERS) and "count" not in nm.rsplit("::", 1)[-1]
+                if body is not None and body.kind == "Closure" and any("char_indices" in cc.name for cc in body.calls()):
+                    sanit = True
+                if sanit:
+                    continue
+                if any(x in nm for x in CHAR_SOURCES):
+                    out.append(short(nm))
+                    continue
+                if body is not None and body.kind != "Closure" and body.crate == "rustfmt_nightly" and depth < 3:
+                    rt = _ret_taint(p, body, depth)
+                    if rt:
+                        out.append("%s (returns %s)" % (short(nm), sorted(set(rt))[0]))
+                        continue
+                if c.declared == "std::iter::Iterator::count" and any("Chars" in g or "TakeWhile" in g for g in c.ga):
+                    out.append("chars().count()")
+                    continue
+                for a in c.args:
+                    if a[0] != "k":
+                        work.append(a[1][0])
+    return out
+
+
+def char_byte_units(ctx, rid):
+    p, r = ctx.p, ctx.r
+    _RET_TAINT.clear()
+    r.rule(rid, "unit discipline at panicking sinks: the range / offset operand of a `str` slice (Index/get/split_at) or of an "
+                "annotate-snippets span does not derive from a character or column count (chars().count(), width functions, "
+                "LineOverflow payload) unless it went through a char→byte conversion (char_indices, len, find, …): such a slice "
+                "panics with `byte index N is not a char boundary` on the first multi-byte character")
+    tab = ctx.table("C16")
+    exc = {e["fn"]: e["reason"] for e in tab.get("unit_exception", [])}
+    n = 0
+    for f in p.by_crate["rustfmt_nightly"]:
+        for c in f.calls():
+            nm = c.name
+            is_span = "annotate_snippets" in nm and nm.endswith("::span")
+            is_slice = (("ops::Index" in nm or nm.endswith("::get") or nm.endswith("split_at") or nm.endswith("::truncate")
+                         or nm.endswith("::replace_range") or nm.endswith("::insert_str"))
+                        and any(g.replace("&", "").replace("mut ", "").strip() in ("str", "std::string::String") for g in c.ga[:1]))
+            if not (is_span or is_slice):
+                continue
+            n += 1
+            srcs = []
+            for a in (c.args[1:] if len(c.args) > 1 else c.args):
+                if a[0] != "k":
+                    srcs += _taint_sources(p, f, a[1][0])
+            if not srcs:
+                continue
+            owner = f.root or f.id
+            key = "%s: %s fed by %s" % (short(owner), "annotation span" if is_span else "str slice", sorted(set(srcs))[0])
+            if owner in exc:
+                r.instance(rid, key, "exception", c.loc(), exc[owner], nontrivial=False)
+                continue
+            r.instance(rid, key, "violation", c.loc())
+            r.violation(rid, key,
+                        "a byte-indexed operation on text receives an offset computed from %s: with non-ASCII text the offset "
+                        "falls inside a character and rustfmt panics" % sorted(set(srcs)), [c.loc()])
+    r.floor(rid, n, 60, "str slicing / span sinks examined")
